@@ -648,3 +648,40 @@ Lemma passes_nonvacuous :
   static_arity nv_rest = true /\ run nv_rest = "OK (2 . (3 . ())) OUT 7" /\
   plain_let all_on nv_rest <> nv_rest /\ run (plain_let all_on nv_rest) = "OK (2 . (3 . ())) OUT 7".
 Proof. vm_compute. repeat split; try reflexivity; discriminate. Qed.
+
+(* ------------------------------------------------------------------ pass 3 (constant evaluator): the guards are necessary.
+   NO soundness theorem is proved for [ceval] (see the report): its model is tied to the source by the AST
+   correspondence only; these witnesses refute the three pre-fix variants. *)
+Definition off_rest_used := {| flatten_checks_outer_rest := true; flatten_checks_inner_rest := true; flatten_checks_operand_ids := true;
+     plain_let_skips_short_calls := true; plain_let_builds_const_list := true; prune_if_quote_false_is_false := true;
+     consteval_checks_rest_is_used := false; consteval_checks_surplus_operands := true; consteval_emits_value := true;
+     consteval_checks_set_idents := true; consteval_static_arity := true |}.
+Definition off_surplus := {| flatten_checks_outer_rest := true; flatten_checks_inner_rest := true; flatten_checks_operand_ids := true;
+     plain_let_skips_short_calls := true; plain_let_builds_const_list := true; prune_if_quote_false_is_false := true;
+     consteval_checks_rest_is_used := true; consteval_checks_surplus_operands := false; consteval_emits_value := true;
+     consteval_checks_set_idents := true; consteval_static_arity := true |}.
+Definition off_emits_value := {| flatten_checks_outer_rest := true; flatten_checks_inner_rest := true; flatten_checks_operand_ids := true;
+     plain_let_skips_short_calls := true; plain_let_builds_const_list := true; prune_if_quote_false_is_false := true;
+     consteval_checks_rest_is_used := true; consteval_checks_surplus_operands := true; consteval_emits_value := false;
+     consteval_checks_set_idents := true; consteval_static_arity := true |}.
+
+(* F37: ((lambda (a . r) r) 1) *)
+Definition w_f37 : exp := Call (Lam ["a"; "r"] true (Loc "r")) (one (Num 1)).
+(* F27: ((lambda (a b) a) '(1 2) (display 1)) *)
+Definition w_f27 : exp :=
+  Call (Lam ["a"; "b"] false (Loc "a")) (two (Quote (DCons (DNum 1) (DCons (DNum 2) DNil))) (Prim PDisplay (one (Num 1)))).
+(* F41: ((lambda (a . r) 1) 1 2 (display 7)) *)
+Definition w_f41 : exp := Call (Lam ["a"; "r"] true (Num 1)) (ECons (Num 1) (two (Num 2) (Prim PDisplay (one (Num 7))))).
+
+Lemma ceval_unsound_without_rest_guard :
+  exists e, run e = "OK () OUT " /\ run (ceval off_rest_used e) = "ERR OUT " /\ run (ceval all_on e) = "OK () OUT ".
+Proof. exists w_f37. vm_compute. repeat split; reflexivity. Qed.
+
+Lemma ceval_unsound_if_body_returned :
+  exists e, run e = "OK (1 . (2 . ())) OUT 1" /\ run (ceval off_emits_value e) = "ERR OUT 1" /\
+            run (ceval all_on e) = "OK (1 . (2 . ())) OUT 1".
+Proof. exists w_f27. vm_compute. repeat split; reflexivity. Qed.
+
+Lemma ceval_unsound_without_surplus_check :
+  exists e, run e = "OK 1 OUT 7" /\ run (ceval off_surplus e) = "OK 1 OUT " /\ run (ceval all_on e) = "OK 1 OUT 7".
+Proof. exists w_f41. vm_compute. repeat split; reflexivity. Qed.
